@@ -64,7 +64,7 @@ def main():
 
 HOOK_COMMITS = ["de5dfe6"]
 # properties whose check has been reviewed and runs clean on the unchanged tree
-READY = ["C01", "C02", "C03", "C05", "C06", "C12", "C13", "C17"]
+READY = ["C01", "C02", "C03", "C05", "C06", "C12", "C13", "C17", "C18"]
 
 if __name__ == "__main__":
     main()
